@@ -224,9 +224,51 @@ def reset_cycles(case):
     return [b for (a, b) in _segments(case)[:-1]] if case["stim"] else []
 
 
+_ACC = {}
+
+
+def accepted_of(case):
+    """(indices of the initiators add() accepts, indices it refuses) according to the MODEL, found by asking it
+    again without the initiator it refused; only for cases that may contain a refusal."""
+    from .. import common as C
+    import json
+    key = json.dumps(case["cfg"], sort_keys=True)
+    if key not in _ACC:
+        cfg = case["cfg"]
+        idxs = list(range(len(cfg["intrs"])))
+        refused = []
+        while idxs:
+            sub = dict(cfg, intrs=[cfg["intrs"][i] for i in idxs])
+            r = C.model_run(ENGINE_ID, [[to_model({"cfg": sub, "stim": []})[0], []]])[0]
+            if r and r[0] == -2:
+                refused.append(idxs.pop(r[1]))
+            else:
+                break
+        if len(_ACC) > 200:
+            _ACC.clear()
+        _ACC[key] = (idxs, refused)
+    return _ACC[key]
+
+
+def reduced(case):
+    """The same case with the refused initiators taken out (None when nothing is left or nothing was refused)."""
+    if not may_refuse(case["cfg"]):
+        return None
+    idxs, refused = accepted_of(case)
+    if not refused or not idxs:
+        return None
+    cfg = dict(case["cfg"], intrs=[case["cfg"]["intrs"][i] for i in idxs])
+    stim = [[[irows[i] for i in idxs], brow] for (irows, brow) in case["stim"]]
+    return {"engine": "arbiter", "kind": case["kind"], "cfg": cfg, "stim": stim}
+
+
 def model_cases(case):
     """A mid-run synchronous reset starts the model again from its initial state (grant 0): one model run per
-    segment, same configuration."""
+    segment, same configuration.  A case with a refused add() is two runs: the refusal itself, and the arbiter
+    that results when the caller goes on adding the remaining initiators."""
+    red = reduced(case)
+    if red is not None:
+        return [to_model(case), to_model(red)]
     head = to_model(case)[0]
     if not case["stim"]:
         return [to_model(case)]
@@ -236,6 +278,9 @@ def model_cases(case):
 def model_join(case, results):
     """[rows, state after the last cycle]: rows are concatenated, the final state is the last segment's.  A
     refused add() ([-2, k], the same in every segment) or an undecodable segment is passed on as it is."""
+    if reduced(case) is not None and len(results) == 2 and results[0] and results[0][0] == -2:
+        second = results[1]
+        return [-2, results[0][1], second[0] if (isinstance(second, list) and len(second) == 2) else second]
     rows = []
     for r in results:
         if not (isinstance(r, list) and len(r) == 2 and isinstance(r[0], list)):
@@ -244,7 +289,10 @@ def model_join(case, results):
     return [rows, results[-1][1]]
 
 
-def build(cfg):
+def build(cfg, keep_going=False):
+    """keep_going: a refused add() is noted and the remaining initiators are still added (the refused interface
+    must then have left no trace in the arbiter)."""
+    refused = []
     from amaranth_soc import wishbone
     from ..common import spell_features
     feats = lambda f: spell_features([FE[k] for k in range(6) if f[k]], sum((k + 2) * b for k, b in enumerate(f)) + cfg["aw"])
@@ -257,8 +305,13 @@ def build(cfg):
         try:
             arb.add(it)
         except ValueError:
-            raise AddRefused(i)
+            if not keep_going:
+                raise AddRefused(i)
+            refused.append(i)
+            continue
         intrs.append(it)
+    if keep_going:
+        return arb, intrs, refused
     return arb, intrs
 
 
@@ -269,10 +322,22 @@ class AddRefused(Exception):
 def run_impl(case):
     """Returns [[bus row, [initiator rows]] per cycle]; absent optional signals read as 0."""
     cfg = case["cfg"]
-    try:
-        arb, intrs = build(cfg)
-    except AddRefused as e:
-        return [-2, e.args[0]]
+    prebuilt = case.get("_prebuilt")
+    if prebuilt is not None:
+        arb, intrs = prebuilt
+    else:
+        try:
+            arb, intrs = build(cfg)
+        except AddRefused as e:
+            red = reduced(case)
+            if red is None:
+                return [-2, e.args[0]]
+            # go on adding the other initiators to the SAME arbiter and simulate what results
+            arb2, intrs2, refused = build(cfg, keep_going=True)
+            sub = dict(red); sub["_prebuilt"] = (arb2, intrs2)
+            if len(intrs2) != len(red["cfg"]["intrs"]):
+                return [-2, e.args[0], [-3, refused]]      # the real add() refuses other initiators than the model
+            return [-2, e.args[0], run_impl(sub)]
     ins, outs = [], []
     in_idx = []   # positions within the flattened stimulus row
     for i, (it, ic) in enumerate(zip(intrs, cfg["intrs"])):
@@ -331,12 +396,16 @@ def run_impl(case):
 
 
 def from_model(res):
-    return res if res and res[0] == -2 else res[0]
+    return res if res and res[0] == -2 else res[0]        # a refusal (with what followed, already rows) as it is
 
 
 def canon(obs):
     """The model is compared on ports only; the grant register is used by the oracle."""
-    return obs if obs and obs[0] == -2 else [o[:2] for o in obs]
+    if obs and obs[0] == -2:
+        if len(obs) > 2 and isinstance(obs[2], list) and obs[2] and isinstance(obs[2][0], list):
+            return [-2, obs[1], [o[:2] for o in obs[2]]]
+        return obs
+    return [o[:2] for o in obs]
 
 
 def nontrivial(case, obs):
@@ -376,6 +445,10 @@ def oracle(case, obs):
     """C08/C09 restated over implementation observations only (ports + the design's own grant
     register).  Returns list of (pid, cycle, text)."""
     if obs and obs[0] == -2:
+        red = reduced(case)
+        if red is not None and len(obs) > 2 and isinstance(obs[2], list) and obs[2] and isinstance(obs[2][0], list):
+            # the arbiter the caller ends up with after the refusal: the refused interface must have left no trace
+            return [(pid, t, "after a refused add(): " + txt) for (pid, t, txt) in oracle(red, obs[2])]
         return []
     cfg = case["cfg"]; fa = cfg["feat"]; n = len(cfg["intrs"]); dw = cfg["dw"]
     out = []
